@@ -381,7 +381,15 @@ func run(w *vh.W, c *jcase) {
 	}
 	term := fmt.Sprintf("{| c_files := %s; c_qs := %s |}", vh.List(fterms), vh.List(qterms))
 	// non-trivial: at least two blocks of different files overlap in time, or a tombstone applies
-	w.Add(term, c, overlapPairs > 0 || len(c.Dels) > 0, "")
+	// Known boundary defect (never generated; reachable only through an explicit -replay): a seek at
+	// MinInt64 (ascending) / MaxInt64 (descending) makes t-1 / t+1 wrap in FileStore.locations.
+	sig := ""
+	for _, t := range c.Seeks {
+		if t == math.MinInt64 || t == math.MaxInt64 {
+			sig = "seek-at-int64-extreme-wraps"
+		}
+	}
+	w.Add(term, c, overlapPairs > 0 || len(c.Dels) > 0, sig)
 	w.Count("type", typNames[c.Typ])
 	w.Count("files", fmt.Sprint(len(c.Files)))
 	w.Count("locations(blocks)", fmt.Sprint(nblocks))
@@ -687,9 +695,11 @@ func main() {
 		os.RemoveAll(tmpRoot)
 		return
 	}
-	for _, c := range corpus() {
-		c := c
-		run(w, &c)
+	if proc == 0 { // hand-picked layouts once, not in every parallel driver process
+		for _, c := range corpus() {
+			c := c
+			run(w, &c)
+		}
 	}
 	if w.N >= 3000 {
 		n := exhaustive(w, 2, 4, true, 1)
